@@ -49,7 +49,8 @@ func (o *noArgFunctionOperator) Explain() (me string, next []model.VectorOperato
 }
 
 func (o *noArgFunctionOperator) Series(ctx context.Context) ([]labels.Labels, error) {
-	return []labels.Labels{}, nil
+	// One series without labels, like a number literal: the sample of every step refers to it.
+	return make([]labels.Labels, 1), nil
 }
 
 func (o *noArgFunctionOperator) GetPool() *model.VectorPool {
@@ -68,7 +69,7 @@ func (o *noArgFunctionOperator) Next(ctx context.Context) ([]model.StepVector, e
 		})
 		sv.T = o.currentStep
 		sv.Samples = []float64{result.V}
-		sv.SampleIDs = []uint64{}
+		sv.SampleIDs = []uint64{0}
 
 		ret = append(ret, sv)
 		o.currentStep += o.step
